@@ -455,10 +455,11 @@ Lemma ents_fresh_run_changes T l c r : ents_fresh c ->
   run_array (fun c ch => apply_changes c T (fst ch) (snd ch)) l c = Ok r -> ents_fresh (sr_client r).
 Proof. apply run_array_inv. intros c0 a r0 P E. exact (ents_fresh_changes _ _ _ _ _ P E). Qed.
 
-(* the state after the mapping and despawn phases of a message *)
+(* the state after the despawn and mapping phases of a message (since the repair of defect D30 the despawn records are
+   applied BEFORE the mappings of the same message) *)
 Definition update_pre (c : client) (u : update_msg) : client :=
-  fold_left apply_despawn (u_despawns u)
-    (fold_left (fun c m => apply_entity_mapping c (fst m) (snd m)) (u_maps u) (set_upd_tick c (u_tick u))).
+  fold_left (fun c m => apply_entity_mapping c (fst m) (snd m)) (u_maps u)
+    (fold_left apply_despawn (u_despawns u) (set_upd_tick c (u_tick u))).
 
 (* the message was applied to its end (no array element aborted it) *)
 Definition update_completes (c : client) (u : update_msg) (c' : client) : Prop :=
@@ -473,8 +474,8 @@ Qed.
 
 Lemma ents_fresh_update_pre c u : ents_fresh c -> ents_fresh (update_pre c u).
 Proof.
-  intros Hf. unfold update_pre. apply fold_left_inv; [intros; apply ents_fresh_despawn; assumption|].
-  apply fold_left_inv; [intros; apply ents_fresh_mapping; assumption|].
+  intros Hf. unfold update_pre. apply fold_left_inv; [intros; apply ents_fresh_mapping; assumption|].
+  apply fold_left_inv; [intros; apply ents_fresh_despawn; assumption|].
   revert Hf. apply ents_fresh_ext; reflexivity.
 Qed.
 
@@ -630,6 +631,45 @@ Section Adopt.
     al_get e (cl_s2c c) = Some cid /\ al_get cid (cl_c2s c) = Some e /\
     exists x, get_cent c cid = Some x /\ ce_marker x = true.
 
+  (* nothing is mapped to the pre-spawned entity yet *)
+  Definition adopt_U (c : client) : Prop :=
+    (forall s, al_get s (cl_s2c c) <> Some cid) /\ al_get cid (cl_c2s c) = None.
+
+  (* a despawn record does not concern an entity nothing is mapped to *)
+  Lemma adopt_JU_despawn c d : adopt_J c -> adopt_U c -> adopt_J (apply_despawn c d) /\ adopt_U (apply_despawn c d).
+  Proof.
+    intros (Hnd & (x & Hx & Hxa & Hxp) & Huniq & Hs2c & Hc2s) (U1 & U2).
+    unfold apply_despawn, emap_remove_server. destruct (al_get d (cl_s2c c)) as [cid'|] eqn:E.
+    2:{ split; [split; [exact Hnd|split; [exists x; auto|auto]]|split; assumption]. }
+    cbv beta iota. rewrite get_cent_set_maps.
+    assert (Hc : cid' <> cid) by (intros ->; exact (U1 d E)).
+    assert (G : forall c1, cl_s2c c1 = al_remove d (cl_s2c c) -> cl_c2s c1 = al_remove cid' (cl_c2s c) ->
+                NoDup (al_keys (cl_ents c1)) -> get_cent c1 cid = Some x ->
+                (forall k y, In (k, y) (cl_ents c1) -> ce_pre y = Some pc -> k = cid) ->
+                adopt_J c1 /\ adopt_U c1).
+    { intros c1 E1 E2 E3 E4 E5.
+      assert (V1 : forall s, al_get s (cl_s2c c1) <> Some cid).
+      { intros s Hs. rewrite E1 in Hs. destruct (N.eq_dec s d) as [->|Hne2]; [rewrite al_get_remove_same in Hs; discriminate|].
+        rewrite al_get_remove_other in Hs by exact Hne2. exact (U1 s Hs). }
+      assert (V2 : al_get cid (cl_c2s c1) = None) by (rewrite E2, al_get_remove_other by congruence; exact U2).
+      split; [|split; assumption]. split; [exact E3|]. split; [exists x; auto|]. split; [exact E5|]. split.
+      - intros s Hs. exfalso. exact (V1 s Hs).
+      - intros s Hs. congruence. }
+    destruct (get_cent c cid') as [x'|] eqn:Ex'; [destruct (ce_alive x')|]; try (apply G; try reflexivity; assumption).
+    apply G; try reflexivity.
+    - cbn. apply al_insert_nodup. exact Hnd.
+    - rewrite get_cent_set_cent_other by congruence. rewrite get_cent_set_maps. exact Hx.
+    - intros k y Hk Hy. cbn in Hk. apply al_insert_in in Hk. destruct Hk as [Hk|Hk]; [|exact (Huniq _ _ Hk Hy)].
+      inversion Hk; subst k y. cbn in Hy. apply (Huniq cid' x'); [|exact Hy]. unfold get_cent in Ex'. apply al_get_in. exact Ex'.
+  Qed.
+
+  Lemma adopt_JU_despawns ds : forall c, adopt_J c -> adopt_U c ->
+    adopt_J (fold_left apply_despawn ds c) /\ adopt_U (fold_left apply_despawn ds c).
+  Proof.
+    induction ds as [|d t IH]; intros c HJ HU; cbn [fold_left]; [split; assumption|].
+    destruct (adopt_JU_despawn c d HJ HU) as [HJ1 HU1]. exact (IH _ HJ1 HU1).
+  Qed.
+
   Lemma adopt_J_mapping c e' pc' :
     adopt_J c -> (pc' = pc -> e' = e) -> adopt_J (apply_entity_mapping c e' pc').
   Proof.
@@ -776,12 +816,12 @@ Proof. intros Hg. induction l as [|a t IH]; intros c; cbn [fold_left]; [reflexiv
 
 Lemma update_pre_next c u : cl_next (update_pre c u) = cl_next c.
 Proof.
-  unfold update_pre. rewrite fold_next by apply despawn_next.
-  rewrite fold_next by (intros; apply mapping_next). reflexivity.
+  unfold update_pre. rewrite fold_next by (intros; apply mapping_next).
+  rewrite fold_next by apply despawn_next. reflexivity.
 Qed.
 
 (* whatever the outcome (completed or aborted half way), the result is a removals/changes phase
-   away from the state after mappings and despawns *)
+   away from the state after despawns and mappings *)
 Lemma update_message_phases c u c' : apply_update_message c u = Ok c' -> phase_rel (u_tick u) (update_pre c u) c'.
 Proof.
   intros H. unfold apply_update_message in H. cbv zeta in H. fold (update_pre c u) in H.
@@ -801,24 +841,25 @@ Theorem mapping_adopts_prespawned c u c' cid pc e x :
   (forall s, al_get s (cl_s2c c) <> Some cid) -> al_get cid (cl_c2s c) = None ->
   In (e, pc) (u_maps u) ->
   (forall e' pc', In (e', pc') (u_maps u) -> (pc' = pc <-> e' = e)) ->
-  ~ In e (u_despawns u) ->
   apply_update_message c u = Ok c' ->
   cid < cl_next c /\ al_get e (cl_s2c c') = Some cid /\ al_get cid (cl_c2s c') = Some e /\
   exists x', get_cent c' cid = Some x' /\ ce_alive x' = true /\ ce_marker x' = true /\ ce_pre x' = Some pc.
 Proof.
-  intros Hf Hnd Hx Ha Hp Huniq Hunm Hc2s Hin Hside Hdes H.
+  intros Hf Hnd Hx Ha Hp Huniq Hunm Hc2s Hin Hside H.
   pose proof (ents_fresh_lt _ _ _ Hf Hx) as Hlt. split; [exact Hlt|].
   assert (HJ : adopt_J cid pc e (set_upd_tick c (u_tick u))).
   { split; [exact Hnd|]. split; [exists x; auto|]. split; [exact Huniq|]. split.
     - intros s Hs. exfalso. exact (Hunm s Hs).
     - intros s Hs. cbn in Hs. congruence. }
-  destruct (adopt_maps_fold cid pc e (u_maps u) _ HJ Hside) as [HJ1 HK1]. cbv zeta in HJ1, HK1.
-  pose proof (adopt_F_of_JK _ _ _ _ HJ1 (HK1 (or_intror Hin))) as HF1.
-  pose proof (adopt_F_despawns cid pc e (u_despawns u) _ Hdes HF1) as HF2. fold (update_pre c u) in HF2.
+  assert (HU : adopt_U cid (set_upd_tick c (u_tick u))) by (split; [exact Hunm|exact Hc2s]).
+  (* the despawn records of the message do not concern the pre-spawned entity: nothing is mapped to it yet *)
+  destruct (adopt_JU_despawns cid pc e (u_despawns u) _ HJ HU) as [HJ0 _].
+  destruct (adopt_maps_fold cid pc e (u_maps u) _ HJ0 Hside) as [HJ1 HK1]. cbv zeta in HJ1, HK1.
+  pose proof (adopt_F_of_JK _ _ _ _ HJ1 (HK1 (or_intror Hin))) as HF1. fold (update_pre c u) in HF1.
   apply (adopt_F_phase cid pc e (u_tick u) (update_pre c u) c').
   - rewrite update_pre_next. exact Hlt.
   - exact (update_message_phases _ _ _ H).
-  - exact HF2.
+  - exact HF1.
 Qed.
 
 (* ... and when the message runs to its end, the entity's record lands on that entity *)
@@ -829,13 +870,12 @@ Corollary mapping_adopts_prespawned_confirmed c u c' cid pc e x comps :
   (forall s, al_get s (cl_s2c c) <> Some cid) -> al_get cid (cl_c2s c) = None ->
   In (e, pc) (u_maps u) ->
   (forall e' pc', In (e', pc') (u_maps u) -> (pc' = pc <-> e' = e)) ->
-  ~ In e (u_despawns u) ->
   update_completes c u c' -> In (e, comps) (u_changes u) ->
   al_get e (cl_s2c c') = Some cid /\
   exists x', get_cent c' cid = Some x' /\ ce_pre x' = Some pc /\ confirmed_ent (u_tick u) x'.
 Proof.
-  intros Hf Hnd Hx Ha Hp Huniq Hunm Hc2s Hin Hside Hdes Hc Hch.
-  destruct (mapping_adopts_prespawned c u c' cid pc e x Hf Hnd Hx Ha Hp Huniq Hunm Hc2s Hin Hside Hdes
+  intros Hf Hnd Hx Ha Hp Huniq Hunm Hc2s Hin Hside Hc Hch.
+  destruct (mapping_adopts_prespawned c u c' cid pc e x Hf Hnd Hx Ha Hp Huniq Hunm Hc2s Hin Hside
               (update_completes_ok _ _ _ Hc)) as (_ & M1 & _ & (x' & Hx' & _ & _ & Hp')).
   split; [exact M1|]. destruct (update_changed_entities_confirmed c u c' Hf Hc) as [_ Hcf].
   destruct (Hcf _ _ Hch) as (cid2 & x2 & E2 & Hx2 & Hce). rewrite M1 in E2. inversion E2; subst cid2.
@@ -868,6 +908,17 @@ Proof.
   apply al_get_remove_none. exact H.
 Qed.
 
+(* a despawn record only kills: the entities pre-spawned under [pc] stay dead *)
+Lemma despawns_keep_dead_pre pc ds : forall c,
+  (forall cid x, In (cid, x) (cl_ents c) -> ce_pre x = Some pc -> ce_alive x = false) ->
+  forall cid x, In (cid, x) (cl_ents (fold_left apply_despawn ds c)) -> ce_pre x = Some pc -> ce_alive x = false.
+Proof.
+  induction ds as [|d t IH]; intros c Hd; cbn [fold_left]; [exact Hd|]. apply IH.
+  unfold apply_despawn, emap_remove_server. destruct (al_get d (cl_s2c c)) as [cid'|]; [|exact Hd].
+  cbv beta iota. rewrite get_cent_set_maps. destruct (get_cent c cid') as [x'|]; [|exact Hd]. destruct (ce_alive x'); [|exact Hd].
+  intros k y Hk Hy. cbn in Hk. apply al_insert_in in Hk. destruct Hk as [Hk|Hk]; [inversion Hk; reflexivity|exact (Hd _ _ Hk Hy)].
+Qed.
+
 Theorem mapping_dead_prespawn_spawns_fresh c u c' pc e comps :
   ents_fresh c ->
   (forall cid x, In (cid, x) (cl_ents c) -> ce_pre x = Some pc -> ce_alive x = false) ->
@@ -883,8 +934,10 @@ Proof.
   split; [exact E2|]. split; [|auto].
   pose proof (update_message_phases _ _ _ (update_completes_ok _ _ _ Hc)) as (_ & _ & _ & _ & P5).
   destruct (P5 _ _ E2) as [H|H]; [|rewrite update_pre_next in H; exact H].
-  exfalso. unfold update_pre in H. rewrite despawns_keep_unmapped in H; [discriminate|].
-  apply (dead_maps_fold pc e (u_maps u) (set_upd_tick c (u_tick u))); assumption.
+  exfalso. unfold update_pre in H.
+  rewrite (dead_maps_fold pc e (u_maps u) (fold_left apply_despawn (u_despawns u) (set_upd_tick c (u_tick u)))) in H; [discriminate| | |exact Hside].
+  - apply despawns_keep_dead_pre. exact Hd.
+  - apply despawns_keep_unmapped. exact He.
 Qed.
 
 (* ServerEntityMap::insert through a pre-spawn mapping keeps the invariant when the pre-spawned
